@@ -268,6 +268,19 @@ def jobs(tier, seed):
     for fam in fams:
         for r in (rots if fam == "box" or tier == "thorough" else (1, 5, 9, 14, 20)):
             add("run_renumber", f"renumber|hex|{fam}|rot={r}", dim=3, family=fam, rot=r)
+    if tier == "quick":
+        # twisted (non-planar) faces: one displaced corner with symbolic offsets, and a concrete irregular hexahedron
+        for r in rots:
+            add("run_renumber", f"renumber|hex|concrete|rot={r}", dim=3, family="concrete", rot=r)
+        # ground twins only: the symbolic run of the 'offset' family does not finish (square roots of quartics in the three
+        # offsets), and a rotated concrete cell feeds the uninterpreted arccos/power functions arguments that differ in the
+        # 20th digit (no continuity axiom), so the solver could not decide either
+        for r in (2, 7, 13, 22):
+            add("run_renumber", f"renumber|hex|offset|rot={r}|ground twin only", dim=3, family="offset", rot=r)
+            js[-1]["symbolic"] = False
+        add("run_motion", "rotate|hex|concrete|ground twin only", dim=3, family="concrete", kind="rotate")
+        js[-1]["symbolic"] = False
+    add("run_renumber", "renumber|hex|concrete|rot=11|neighbour", dim=3, family="concrete", rot=11, neighbour=True)
     add("run_renumber", "renumber|hex|box|rot=7|neighbour", dim=3, family="box", rot=7, neighbour=True)
     for fam in ("rect", "sheared", "tapered"):
         for r in (1, 2, 3):
